@@ -140,6 +140,29 @@ def cmd_run(prop, tier, runs=None, budget=None, quiet=False):
                         lines.append('  note: this violation depends on state kept by the library '
                                      'between runs of one process; minimised hermetically')
                         break
+            if not repro:
+                # ... or on what EARLIER runs of the same worker process left behind: search the
+                # shortest history of preceding runs after which the plan fails in a fresh
+                # interpreter; the replay file then carries those runs as its prelude.
+                for cand in [c for c in group if c.get('prelude')][:2]:
+                    c_engine_name = cand.get('engine', engine_name)
+                    pre, n_pre = core.find_prelude(c_engine_name, cand['plan'], prop, tier, sig,
+                                                   cand['prelude'])
+                    n_exec += n_pre
+                    if pre:
+                        plan = cand['plan']
+                        res = core.execute_plan(by_engine[c_engine_name], copy.deepcopy(plan),
+                                                prop, tier)
+                        path = core.write_replay(prop, c_engine_name, plan, sig, cand['detail'],
+                                                 cand['log_digest'], cand['seed'], tier,
+                                                 prelude=pre)
+                        res.detail = cand['detail']
+                        rc, out = core.fresh_process_replay(path)
+                        repro = (rc == 1 and ('VIOLATION property=%s' % prop) in out)
+                        lines.append('  note: this violation needs %d earlier run(s) in the same '
+                                     'process (the library keeps state between runs); they are the '
+                                     'prelude of the replay file' % len(pre))
+                        break
             if repro:
                 reproduced_violations.append(sig)
             lines.append('VIOLATION property=%s replay=%s' % (prop, path))
